@@ -283,7 +283,9 @@ def loaders(chk, mod):
                     pass
     # ScatteringParams.for_isotope: found -> _parse_line(remainder); not found -> ValueError
     chk.function(MOD, 'ScatteringParams.for_isotope')
-    fn = mod.ScatteringParams.for_isotope.__wrapped__
+    # the cached lookup function (for_isotope itself, or the cached helper it delegates to)
+    cands = [getattr(mod.ScatteringParams, n) for n in ('for_isotope', '_for_isotope_cached') if hasattr(mod.ScatteringParams, n)]
+    fn = [getattr(c, '__wrapped__') for c in cands if hasattr(c, '__wrapped__')][0]
     saved = (mod._open_bundled_parameters_file, mod._find_line_with_isotope)
 
     class F2:
@@ -324,7 +326,10 @@ def tables(chk):
     from vf.realrun import real_module
     atoms = real_module('atoms')
     atoms.Atom.for_isotope.cache_clear()
-    atoms.ScatteringParams.for_isotope.cache_clear()
+    for n_ in ('for_isotope', '_for_isotope_cached'):
+        c_ = getattr(atoms.ScatteringParams, n_, None)
+        if hasattr(c_, 'cache_clear'):
+            c_.cache_clear()
     sp_rows = _table('scattering_parameters.csv')
     w_rows = _table('atomic_weights.csv')
     m_rows = _table('atomic_masses.csv')
@@ -491,7 +496,10 @@ def replay(rec):
         from vf.realrun import real_module
         at = real_module('atoms')
         at.Atom.for_isotope.cache_clear()
-        at.ScatteringParams.for_isotope.cache_clear()
+        for n_ in ('for_isotope', '_for_isotope_cached'):
+            c_ = getattr(at.ScatteringParams, n_, None)
+            if hasattr(c_, 'cache_clear'):
+                c_.cache_clear()
         probs = []
         import io
         txt = 'Ab,1,2\nA,3,4\nAbc,5,6\nA,7,8\n'
